@@ -336,6 +336,11 @@ def parts(tier):
                     tiers = (("I", "a", D.labelled(s1)), ("P", "p", D.labelled_points(p)), ("I", "b", D.labelled(s2, "x")))
                     for off in OFFS:
                         yield (tiers, 0.0, 4.0, off)
+        # textgrids with no tier at all / a single tier
+        for tiers in ((), (("P", "p", D.labelled_points((1.0, 3.0))),), (("I", "a", D.labelled(((0.0, 1.0), (2.0, 4.0)))),),
+                      (("P", "p", ()),), (("I", "a", ()),)):
+            for off in OFFS:
+                yield (tiers, 0.0, 4.0, off)
 
     ps.append(InputPart("shift-textgrid", gen_tgshift, _check_tg_shift,
                         rule="3-tier textgrids (incl. empty tiers) x offsets x 3 modes: tier-wise shift model, span hull, reporting",
